@@ -37,9 +37,9 @@ Field == ph = 1 /\ fp # NoFP
 SlotOK(rv, av, bv, p) ==
   IF av = None THEN rv = bv
   ELSE IF IsNode(av) /\ IsNilV(bv) THEN Canon(rv) = Canon(av)              \* nil keeps a container
-  ELSE IF ToCfgOk(av) /\ ToCfgOk(bv)
-       THEN rv = MergeCfg({}, NoOpts(p), AsCfg(av), AsCfg(bv))              \* recursive contents
-  ELSE rv = bv                                                              \* B's value
+  ELSE IF IsNode(av) /\ IsNode(bv)
+       THEN rv = MergeCfg({}, NoOpts(p), av, bv)                            \* both containers: recursive contents
+  ELSE Canon(rv) = Canon(bv) /\ (IsNilV(bv) => rv = bv)                    \* B's value (a nil stays an explicit nil)
 
 DictOK ==
   Plain =>
